@@ -29,6 +29,11 @@ import (
 
 const deadline = 8 * time.Second
 
+// idle tunnels: the server's ClientReadTimeout (seconds; 1 is the smallest value bfe.conf accepts) and how long both ends
+// stay silent.  The sleep is the point of these cases: the property is about bytes sent AFTER idleness.
+const idleTimeoutSec = 1
+const idleFor = 1600 * time.Millisecond
+
 // ---------------------------------------------------------------------------------------------
 // raw backend: a plain TCP listener; every accepted connection is handed to the tunnel that is connecting
 
@@ -62,11 +67,16 @@ type env struct {
 	st  *rawBackend // backend of cluster cst (TLS stream tunnels)
 }
 
-var E *env
+var envs [2]*env
 
-func setup() *env {
-	if E != nil {
-		return E
+// setup(idle): idle = true is a second server whose ClientReadTimeout is 1 s (tunnels that contain an idle event)
+func setup(idle bool) *env {
+	k := 0
+	if idle {
+		k = 1
+	}
+	if envs[k] != nil {
+		return envs[k]
 	}
 	ws, st := newRawBackend(), newRawBackend()
 	bws := &e2e.Backend{Name: "rawws", IP: "127.0.0.1", Port: ws.port}
@@ -81,6 +91,9 @@ func setup() *env {
 			{Name: "cst", SubClusters: []e2e.SubCluster{{Name: "s1", Weight: 100, Backends: []*e2e.Backend{bst}}}}},
 		Handlers: 1, HTTPS: true,
 		Tweak: func(cfg *bfe_conf.BfeConfig, root string) {
+			if idle {
+				cfg.Server.ClientReadTimeout = idleTimeoutSec
+			}
 			p := filepath.Join(root, "tls_conf", "tls_rule_conf.data")
 			var v map[string]interface{}
 			b, err := ioutil.ReadFile(p)
@@ -99,8 +112,8 @@ func setup() *env {
 			ioutil.WriteFile(p, nb, 0644)
 		},
 	})
-	E = &env{srv: srv, ws: ws, st: st}
-	return E
+	envs[k] = &env{srv: srv, ws: ws, st: st}
+	return envs[k]
 }
 
 // ---------------------------------------------------------------------------------------------
@@ -297,6 +310,13 @@ func (e *env) runTunnel(t tunnel, accept *sync.Mutex) hv.Val {
 	conns := [2]net.Conn{cc, bc}
 	sent := [2]int{len(t.cearly), len(t.bearly)}
 	for _, ev := range t.events {
+		if ev.side == 2 {
+			time.Sleep(idleFor)
+			until = until.Add(idleFor)
+			cc.SetDeadline(until)
+			bc.SetDeadline(until)
+			continue
+		}
 		if _, err := conns[ev.side].Write(ev.data); err != nil {
 			break
 		}
@@ -362,7 +382,7 @@ func decode(in hv.Val) ([]tunnel, bool) {
 			}
 			d, ok := ev[1].(hv.B)
 			side, sy := int(hv.AsInt(ev[0])), int(hv.AsInt(ev[2]))
-			if !ok || side < 0 || side > 1 || sy < 0 || sy > 1 {
+			if !ok || side < 0 || side > 2 || sy < 0 || sy > 1 || (side == 2 && (len(d) != 0 || sy != 0)) {
 				return nil, false
 			}
 			t.events = append(t.events, event{side, d, sy == 1})
@@ -377,7 +397,15 @@ func impl(in hv.Val) hv.Val {
 	if !ok {
 		return hv.Err(0)
 	}
-	e := setup()
+	idle := false
+	for _, t := range ts {
+		for _, ev := range t.events {
+			if ev.side == 2 {
+				idle = true
+			}
+		}
+	}
+	e := setup(idle)
 	for _, rb := range []*rawBackend{e.ws, e.st} { // connections left over from a failed case
 		for drained := false; !drained; {
 			select {
@@ -475,6 +503,26 @@ func genTunnel(r *hv.Rng, big bool) (hv.Val, string) {
 func gen(r *hv.Rng, i int, tier string) (string, hv.Val) {
 	if i == 0 {
 		return "triv-empty-ws", hv.L{hv.L{hv.I(0), hv.B{}, hv.B{}, hv.L{}, hv.I(0), hv.I(0)}}
+	}
+	idleEvery := 20 // quick: cases 5, 25, 45; thorough: one in 12
+	if tier == "thorough" {
+		idleEvery = 12
+	}
+	if i%idleEvery == 5 {
+		// idle tunnel: early bytes, a chunk each way, silence for > 1.5 x ClientReadTimeout, then chunks both ways
+		ts := hv.L{}
+		for k := 0; k < 2; k++ {
+			kind := (i/idleEvery + k) % 2
+			evs := hv.L{hv.L{hv.I(0), hv.B(payloadBytes(r, size(r))), hv.I(1)}, hv.L{hv.I(1), hv.B(payloadBytes(r, size(r))), hv.I(1)},
+				hv.L{hv.I(2), hv.B{}, hv.I(0)},
+				hv.L{hv.I(r.Intn(2)), hv.B(payloadBytes(r, 1+size(r))), hv.I(1)}, hv.L{hv.I(0), hv.B(payloadBytes(r, 1+size(r))), hv.I(1)},
+				hv.L{hv.I(1), hv.B(payloadBytes(r, 1+size(r))), hv.I(r.Intn(2))}}
+			if r.Chance(1, 3) {
+				evs = append(evs, hv.L{hv.I(2), hv.B{}, hv.I(0)}, hv.L{hv.I(0), hv.B(payloadBytes(r, 1+size(r))), hv.I(1)})
+			}
+			ts = append(ts, hv.L{hv.I(kind), hv.B(payloadBytes(r, size(r))), hv.B(payloadBytes(r, size(r))), evs, hv.I(r.Intn(2)), hv.I(r.Intn(2))})
+		}
+		return "idle-ws-stream", ts
 	}
 	if i%41 == 7 {
 		bad := []hv.Val{hv.L{}, hv.I(1), hv.L{hv.L{hv.I(2), hv.B{}, hv.B{}, hv.L{}, hv.I(0), hv.I(0)}},
